@@ -970,7 +970,8 @@ class String2Key(Field):
         if self.specifier == String2KeyType.GNUExtension:
             _bytes += b'\x00GNU'
             _bytes.append(self.gnuext)
-            if self.scserial:
+            if self.scserial is not None:
+                # (a serial number of zero octets still has its length octet)
                 _bytes.append(len(self.scserial))
                 _bytes += self.scserial
         return _bytes
